@@ -664,7 +664,7 @@ func c14Class(c *c14Case, out *c14Out) string {
 func init() {
 	props["C14"] = func(ctx *Ctx) {
 		ctx.Header("M3CloseCorr")
-		ctx.Res.Rule = "controlled case = (queue capacity, protocol, per-thread call lists over {ReportCount, ReportSamples on one shared bucket handle, Flush, Close}, step at which the sink is closed, complete schedule over the yield points of reportCopyMetric / Flush / Close / process()); compared with the model: label or Blocked after every step, values received by the sink in order, result of every Close; exhaustive enumeration of all interleavings of two small pools, seeded random schedules (half of them starving process() so that the queue fills) for larger pools; non-trivial = two threads interleaved inside the protocol; distinct by (pool, capacity, executed schedule). Storm cases (class storm-*) are uncontrolled and checked only by the direct predicate (no panic, no hang, one nil Close, no goroutine of package m3 left; storm-concurrent-close = 8..32 goroutines behind a barrier calling Close on a fresh reporter, repeated; storm-concurrent-allocate = goroutines allocate histograms with one tag set at the same time and every handle must equal (per-bucket sizes, ids, names) the one allocated alone on a fresh reporter; storm-shared-{bucket,counter,gauge,timer} = all goroutines report unique values through ONE allocated handle and no value may reach the sink more often than it was reported)"
+		ctx.Res.Rule = "controlled case = (queue capacity, protocol, per-thread call lists over {ReportCount, ReportSamples on one shared bucket handle, Flush, Close}, step at which the sink is closed, complete schedule over the yield points of reportCopyMetric / Flush / Close / process()); compared with the model: label or Blocked after every step, values received by the sink in order, result of every Close; exhaustive enumeration of all interleavings of two small pools, seeded random schedules (half of them starving process() so that the queue fills) for larger pools; non-trivial = two threads interleaved inside the protocol; distinct by (pool, capacity, executed schedule). Storm cases (class storm-*) are uncontrolled and checked only by the direct predicate (no panic, no hang, one nil Close, no goroutine of package m3 left; storm-concurrent-close = 8..32 goroutines behind a barrier calling Close on a fresh reporter, repeated; storm-flush-heavy = 2..6 goroutines calling Flush in a tight loop while 1..3 report, queues 1..4096, every call under recover(); storm-concurrent-allocate = goroutines allocate histograms with one tag set at the same time and every handle must equal (per-bucket sizes, ids, names) the one allocated alone on a fresh reporter; storm-shared-{bucket,counter,gauge,timer} = all goroutines report unique values through ONE allocated handle and no value may reach the sink more often than it was reported)"
 		nsched := 0
 		one := func(c *c14Case, known string) bool {
 			out, _ := c14Exec(c, true)
@@ -699,6 +699,14 @@ func init() {
 		}
 		if ctx.Replay != nil {
 			var raw map[string]json.RawMessage
+			if json.Unmarshal(ctx.Replay, &raw) == nil && raw["flush_storm"] != nil {
+				var fs c14FlushStorm
+				if err := json.Unmarshal(ctx.Replay, &fs); err != nil {
+					fatal(err)
+				}
+				c14FlushStormOne(ctx, &fs)
+				return
+			}
 			if json.Unmarshal(ctx.Replay, &raw) == nil && raw["alloc_storm"] != nil {
 				var as c14AllocStorm
 				if err := json.Unmarshal(ctx.Replay, &as); err != nil {
